@@ -23,8 +23,10 @@ import traceback
 VERIF = os.path.dirname(os.path.dirname(os.path.abspath(__file__)))
 LEAN = os.path.join(VERIF, 'lean')
 DRIVER = os.path.join(LEAN, '.lake', 'build', 'bin', 'driver')
-EVIDENCE = os.path.join(VERIF, 'evidence')
-REPLAYS = os.path.join(VERIF, 'replays')
+# (runs against a scratch worktree - VERIF_ALLOW_REPO, the seeded self-test - may redirect their output so that
+#  the evidence of the registered checks is never overwritten by a run on a changed tree)
+EVIDENCE = os.environ.get('VERIF_EVIDENCE_DIR') or os.path.join(VERIF, 'evidence')
+REPLAYS = os.environ.get('VERIF_REPLAY_DIR') or os.path.join(VERIF, 'replays')
 ALLOWED_AXIOMS = {'propext', 'Classical.choice', 'Quot.sound'}
 
 Fraction = fractions.Fraction
@@ -74,6 +76,76 @@ def to_fraction(x):
     if isinstance(x, int):
         return Fraction(x)
     return Fraction(*float(x).as_integer_ratio())
+
+
+# ----------------------------------------------------------------------------
+# the collinearity guard of fit_general, evaluated exactly from the data
+# ----------------------------------------------------------------------------
+GUARD_EPS = Fraction(1, 2 ** 52)      # numpy.finfo(numpy.double).eps, the threshold of the code
+GUARD_BAND = 64                       # a decision within this factor of the threshold is decided by rounding
+
+
+def harmonic_weights(n, wxy, wuv):
+    """the weights fit_general uses, exactly: 1 each / the one list / wxy*wuv/(wxy+wuv) where both are
+    positive and 0 elsewhere"""
+    if wxy is None and wuv is None:
+        return [Fraction(1)] * n
+    if wxy is None:
+        return [to_fraction(w) for w in wuv]
+    if wuv is None:
+        return [to_fraction(w) for w in wxy]
+    out = []
+    for a, b in zip(wxy, wuv):
+        a, b = to_fraction(a), to_fraction(b)
+        out.append(a * b / (a + b) if (a > 0 and b > 0) else Fraction(0))
+    return out
+
+
+def guard_ratio(uv, w):
+    """(cuu*cvv - cuv^2) / ((cuu + cvv)/2)^2 of the weighted second central moments of the points `uv`
+    (weights `w`), in exact rational arithmetic from the exact values of the doubles.  fit_general raises
+    SingularMatrixError iff this is <= 2^-52.  0 when all weighted points coincide; None when the weights do
+    not have a positive sum.  Shares no code with the Lean model."""
+    w = [to_fraction(x) for x in w]
+    pts = [(to_fraction(p[0]), to_fraction(p[1])) for p in uv]
+    W = sum(w, Fraction(0))
+    if W <= 0:
+        return None
+    um = sum((a * p[0] for a, p in zip(w, pts)), Fraction(0)) / W
+    vm = sum((a * p[1] for a, p in zip(w, pts)), Fraction(0)) / W
+    cuu = sum((a * (p[0] - um) ** 2 for a, p in zip(w, pts)), Fraction(0))
+    cvv = sum((a * (p[1] - vm) ** 2 for a, p in zip(w, pts)), Fraction(0))
+    cuv = sum((a * (p[0] - um) * (p[1] - vm) for a, p in zip(w, pts)), Fraction(0))
+    h = (cuu + cvv) / 2
+    if h == 0:
+        return Fraction(0)
+    return (cuu * cvv - cuv * cuv) / (h * h)
+
+
+def guard_expect(ratio):
+    """what a correct evaluation of the guard in (at least) long double must do:
+    'singular' (ratio below the band around 2^-52), 'fit' (above it), 'tie' (inside: rounding decides)"""
+    if ratio is None:
+        return 'tie'
+    if ratio < GUARD_EPS / GUARD_BAND:
+        return 'singular'
+    if ratio > GUARD_EPS * GUARD_BAND:
+        return 'fit'
+    return 'tie'
+
+
+def guard_mismatch_is_tie(ratio, mode, n):
+    """one of (model, implementation) reported SingularMatrixError / `err singular` and the other returned a
+    fit: is that a near-tie decided by rounding?  Exact model (mode 'Q') against the long-double code: only
+    inside the band [2^-52/64, 2^-52*64].  Model run in doubles (mode 'F'): its evaluation of
+    (cuu*cvv - cuv^2)/((cuu+cvv)/2)^2 carries an absolute rounding error of up to 4(n+4) 2^-53 (cancellation
+    in cuu*cvv - cuv^2), so its verdict means nothing at or below 2^-52 * max(64, 4(n+4)); the implementation
+    is then still judged by `guard_expect` (oracle) and by the exact model."""
+    if ratio is None:
+        return True
+    if mode == 'Q':
+        return GUARD_EPS / GUARD_BAND <= ratio <= GUARD_EPS * GUARD_BAND
+    return ratio <= GUARD_EPS * max(GUARD_BAND, 4 * (n + 4))
 
 
 # ----------------------------------------------------------------------------
